@@ -8,8 +8,8 @@ import (
 	"time"
 
 	"connectrpc.com/conformance/internal"
-	"connectrpc.com/conformance/internal/tracer"
 	conformancev1 "connectrpc.com/conformance/internal/gen/proto/go/connectrpc/conformance/v1"
+	"connectrpc.com/conformance/internal/tracer"
 )
 
 type verifC12Stderr struct {
